@@ -222,4 +222,23 @@ def fresh (ops : List Op) : Bool := freshFrom [] ops
 def PFull (ops : List Op) (dels : List (List Nat)) (ret : List Live) : Bool :=
   fresh ops && P12 ops dels ret
 
+/-! ### histories that leave the theorems' hypotheses: the predicate is evaluated on the longest well-formed prefix -/
+
+def Op.okIn : Op → Bool
+  | .sub _ t _ => decide (t ≤ unknownType)
+  | .unsubRaw _ => false
+  | _ => true
+
+/-- the longest prefix of a history made of declared types and handed-out ids only -/
+def wfPrefix (ops : List Op) : List Op := ops.takeWhile Op.okIn
+
+/-- **P12 on arbitrary histories.** Up to the first operation that leaves the hypotheses (a foreign id string, an
+    undeclared message type) the identifiers are fresh and every delivery reached exactly the live subscribers; if
+    the whole history stays inside, exactly the live subscriptions are retained at the end. One stray operation no
+    longer voids the predicate for what came before it. -/
+def PPrefix (ops : List Op) (dels : List (List Nat)) (ret : List Live) : Bool :=
+  let pre := wfPrefix ops
+  fresh pre && dels.take (srun pre).out.length == (srun pre).out &&
+  (pre.length != ops.length || (dels == (srun ops).out && ret == (srun ops).live))
+
 end Sygma.C12
